@@ -259,6 +259,7 @@ func runC25(c *Ctx) []Obligation {
 	out = append(out,
 		c.edgeMust(P, "hooks.every-vote-is-judged", "x/nodes/keeper.BeginBlocker", `^lt\(\(phi:rangeindex \+ 1\), builtin\.len\(\(\*github\.com/tendermint/tendermint/abci/types\.LastCommitInfo\)\.GetVotes\(`, true, `^`+kN+`handleValidatorSignature\(k, ctx, `, 1, "each vote of the last commit is passed to the downtime accounting"),
 	)
+	out = append(out, nodesBlockDuties(c, P)...)
 	return out
 }
 
